@@ -67,6 +67,8 @@ class Engine:
         self.notes = {}
         self.on_path_end = None
         self._decided = {}
+        self.lemmas = []         # defining constraints used only when discharging VCs (e.g. y*y == x for sqrt):
+                                 # branch feasibility ignores them (over-approximates the paths: sound)
         self.prefer = []         # optional constraints for nicer counterexample models (never affect verdicts)
 
     # -- solver access -------------------------------------------------------
@@ -162,6 +164,8 @@ class Engine:
         if cond is False:
             cond = z3.BoolVal(False)
         neg = z3.Not(cond)
+        if self.lemmas:
+            neg = z3.And(neg, *self.lemmas)
         r = self.check(neg)
         if r == z3.sat:
             if self.prefer:
@@ -202,13 +206,13 @@ class Engine:
 
     def path_model(self):
         """Model of the current path condition (None if not shown sat); readable values preferred."""
-        r = self.check()
+        r = self.check(*self.lemmas)
         if r != z3.sat:
             return None
         if self.prefer:
-            if self.check(*self.prefer) == z3.sat:
+            if self.check(*(self.lemmas + self.prefer)) == z3.sat:
                 return self.solver.model()
-            self.check()
+            self.check(*self.lemmas)
         return self.solver.model()
 
     # -- exploration -----------------------------------------------------------
@@ -221,6 +225,7 @@ class Engine:
             self.pos = 0
             self._decided = {}
             self.prefer = []
+            self.lemmas = []
             try:
                 fn()
                 self.paths += 1
